@@ -198,7 +198,7 @@ def fit(name, data, init=None, num_classes=None, iterations=3, trainer=None, **o
     # ---- the container of the values is part of "all inputs": derived deterministically from the input itself,
     # (a) the trainer object has been used before and the caller's data / start buffers were refilled in place since,
     # (b) data arrive as non-contiguous views with the same values.  Either way the fit is the same function of the values.
-    mode = container_mode(data, init) if (CONTAINER_STRATA and trainer is None and init is not None) else 0
+    mode = container_mode(data, init) if (CONTAINER_STRATA and trainer is None and isinstance(init, np.ndarray)) else 0
     if mode == 1:
         bufs = {k: _other(v) for k, v in data.items()}
         ibuf = _other(init)
